@@ -26,6 +26,8 @@ func main() {
 		runHistories(r)
 	case "C08":
 		runC08(r)
+	case "C09":
+		runC09(r)
 	default:
 		fmt.Println("chainmc: unknown property", os.Args[1])
 		os.Exit(2)
